@@ -1,20 +1,19 @@
 SPECIFICATION Spec
 CONSTANTS
-  N = 2
-  Cls = "exact"
-  Gates <- GatesE2q
+  N = 3
+  Cls = "perm-ss"
+  Gates <- GatesP3
   NewParams <- NewParamsC
-  Queries <- QueriesE2q
-  MaxDepth = 2
+  Queries <- QueriesP3
+  MaxDepth = 3
   Record = FALSE
-  Deviations <- NoDev
+  Deviations <- DevPermSwap
   ConeIgnoresSwap = FALSE
 VIEW view
 INVARIANT RegIsRun
 INVARIANT NormOne
 INVARIANT QueriesAgree
-INVARIANT NoStaleRead
 INVARIANT RejectClean
-INVARIANT RecordInStep
-INVARIANT StoreCurrent
+INVARIANT PermIsPerm
+INVARIANT PermSound
 CHECK_DEADLOCK FALSE
